@@ -52,8 +52,8 @@ def leaves():
         g = np.array([0.3, 0.5, 0.2, 0.4]) if aniso else 0.35
         L["Poly-o%d-%s-%s" % (order, "f" if fact else "nf", "a" if aniso else "i")] = lambda order=order, fact=fact, g=g: K.DiffPolyKernel(gamma=g, order=order, factorial=fact)
     L["Poly-fixed"] = lambda: K.DiffPolyKernel(gamma=0.35, order=3, gamma_bounds="fixed")
-    for order in (1, 2, 3):
-        sc = [0.2, 0.7, 0.4, 0.3][: order + 1]
+    for order in (1, 2, 3, 4):  # 4 = number of feature columns: the highest order with a non-vanishing term
+        sc = [0.2, 0.7, 0.4, 0.3, 0.25][: order + 1]
         for tag, ls in ls3.items():
             if tag != "mid" and order != 2:
                 continue
